@@ -344,7 +344,25 @@ class Check:
         nthm = sum(len(theorems_in(os.path.join(LEAN, pf))) for pf in prop_files)
         self.coverage['obligations'] = nthm
         if ok:
-            aud = lean_audit(prop_files, helper_files)
+            # The audit reads the compiled .olean files: run it under the build lock (another check may be rebuilding
+            # shared modules) and, when the audit file itself does not elaborate or theorems are missing from its output,
+            # rebuild and retry; a failure that persists although the build is green is infrastructure, never a violation.
+            aud = None
+            for attempt in range(4):
+                with LakeLock():
+                    aud = lean_audit(prop_files, helper_files)
+                if not aud['log'] and not aud['missing']:
+                    break
+                time.sleep(5 + 10 * attempt)
+                ok2, log2, failed2 = lean_build(targets)
+                if not ok2:
+                    ok, log, failed = ok2, log2, failed2
+                    break
+            else:
+                raise Infra('axiom audit keeps failing although the build succeeds:\n' + (aud['log'] or str(aud['missing'][:5])))
+        if not ok:
+            broken = failed_theorems(failed) or ['build:' + (failed[0][0] if failed else 'unknown')]
+        if ok:
             self.coverage['axioms_used'] = sorted({a for v in aud['axioms'].values() for a in v})
             self.coverage['audit'] = {'theorems': len(aud['theorems']), 'nonstandard': aud['nonstandard'],
                                       'missing': aud['missing'], 'forbidden': aud['forbidden']}
